@@ -159,6 +159,28 @@ def generate(rng, tier):
                     if not (mode == "ip" and off < 0):
                         s.meta[ln] = {"role": "hole", "hole": hole}
         out.append(("holes-%s" % arch, s))
+    # a first frame whose return address is null although nothing has to be read for it: the thread's entry function
+    # stopped at its first instruction, in a stub or in a leaf with lr = 0 (aarch64; also null only after the
+    # authentication bits are stripped), and on x86_64 a null word on top of the stack: the end of the stack, not a frame
+    import machotruth as mt
+    for arch in ("a64", "x86"):
+        s = Script(arch, "may")
+        prog = mt.make_program(rng, arch, 4)
+        mbase = 0x100000000 + 0x10000 * rng.below(256)
+        mt.module_macho(s, "M", prog, mbase, 0x100000000, rng)
+        s.add("new U"); s.add("add U M")
+        s.mem("Z", [(0x7ffe0000 + 8 * i, 0) for i in range(8)])
+        pts = [f.start for f in prog["funcs"]] + [prog["stubs"][0], prog["stubs"][0] + 4, prog["helper"][0]]
+        pts += [f.start + off for f in prog["funcs"] if f.shape == "null-leaf" for (off, insn, ph) in f.insns]
+        for a in pts:
+            for lrv in ((0, 0x5a << 56) if arch == "a64" else (0,)):
+                regs = s.regs_a64((1 << 48) - 1, lrv, 0x7ffe0000, 0x7ffe0020) if arch == "a64" else s.regs_x86(mbase + a, 0x7ffe0000, 0x7ffe0020)
+                s.add("newcache C")
+                ln = s.add("unwind U C ip %s %s Z" % (hx(mbase + a), regs), tag="%s:nullfirst:%s" % (arch, "pac" if lrv else "zero"))
+                s.meta[ln] = {"role": "nullfirst"}
+                ln = s.add("trace U C %s %s Z 4" % (hx(mbase + a), regs), tag="%s:nullfirst-iter" % arch)
+                s.meta[ln] = {"role": "full", "marker": "nullra", "arch": arch}
+        out.append(("nullfirst-%s" % arch, s))
     # PE: functions whose unwind codes compress into the pop rule (pushes and one allocation). Every cut of the stack:
     # the rule reads one word per popped register and then the return address, and must name the word it could not read
     import petruth
@@ -287,6 +309,11 @@ def judge(script, impl):
     bad = []
     for ln, m in script.meta.items():
         line = impl.get(ln)
+        if line is not None and m.get("role") == "nullfirst":
+            o = vlib.outcome(line)
+            if o[:2] == ("ok", "some") and o[2] == 0:
+                bad.append((ln, "a null return address was reported as the caller's address instead of ending the stack: " + line[:200]))
+            continue
         if line is not None and m.get("role") == "hole":
             o = vlib.outcome(line)
             if o[:2] != ("err", "CouldNotReadStack") or o[2] != m["hole"]:
